@@ -98,7 +98,15 @@ def ser(v, depth=0):
         return "table"
     cname = type(v).__name__
     if cname == "Xray":
-        return "Xray(%s)" % atom_key(v.element)
+        # the scattering-factor table of one fixed element (Co) is part of the served value
+        tab = ""
+        if atom_key(v.element).startswith("27-"):
+            try:
+                t = v.sftable
+                tab = "," + h(t.tobytes()) if t is not None else ",notable"
+            except Exception as e:
+                tab = ",X:" + type(e).__name__
+        return "Xray(%s%s)" % (atom_key(v.element), tab)
     if hasattr(v, "__dict__") and depth < 4:
         d = dict(vars(v))
         if cname == "Neutron":
@@ -144,7 +152,7 @@ def _is_mutated(p, v):
         if p == "na":
             return v[0].thermalXS == 12345.5
         if p == "xr":
-            return getattr(v, "marker", None) == "MUTATED"
+            return getattr(v, "marker", None) == "MUTATED" or (v._table is not None and v._table[2][0] == 12345.5)
     except Exception:
         pass
     return False
@@ -271,6 +279,8 @@ def mutable_ids(T):
                 if nm in d:
                     v = d[nm]
                     add(nm, v)
+                    if nm == "_xray" and getattr(v, "_table", None) is not None:
+                        add("_xray.table", v._table)
                     if nm == "magnetic_ff" and isinstance(v, dict):
                         for x in v.values():
                             add("magnetic_ff.item", x)
@@ -361,6 +371,9 @@ def _do_mutate(v, p):
         v[0].thermalXS = 12345.5
     elif p == "xr":
         v.marker = "MUTATED"
+        t = v.sftable                      # the table array itself is per-atom data as well
+        if t is not None:
+            t[2][0] = 12345.5
     elif p == "nt_table":
         v.nsf_table[1][0] = 12345.5
     else:
